@@ -10,6 +10,31 @@ use crate::common::*;
 use serde_json::{Value as J, json};
 use std::cmp::Ordering;
 
+const SHARED_PRELUDE: &str = "sh0 = [null]\nsh1 = {a: 1}\nsh2 = \"s\"\nsh3 = [1]\nsh4 = [x => x]\n";
+
+/// Values spelled with shared parts: several pool entries hold the very same heap cell at the same
+/// position (an ordering or equality must not depend on such sharing).
+fn shared_entries() -> Vec<(RV, &'static str)> {
+    let n = RV::Num;
+    let l = RV::List;
+    let nul = || l(vec![RV::Null]);
+    let rec = || RV::Rec(vec![("a".to_string(), n(1.0))]);
+    vec![
+        (l(vec![nul(), n(1.0)]), "[sh0, 1]"),
+        (l(vec![nul(), n(2.0)]), "[sh0, 2]"),
+        (l(vec![rec(), n(1.0)]), "[sh1, 1]"),
+        (l(vec![rec(), n(2.0)]), "[sh1, 2]"),
+        (l(vec![RV::s("s"), n(1.0)]), "[sh2, 1]"),
+        (l(vec![RV::s("s"), n(2.0)]), "[sh2, 2]"),
+        (l(vec![l(vec![n(1.0)]), n(1.0)]), "[sh3, 1]"),
+        (l(vec![l(vec![n(1.0)]), n(2.0)]), "[sh3, 2]"),
+        (l(vec![l(vec![nul()])]), "[[sh0]]"),
+        (l(vec![nul(), nul()]), "[sh0, sh0]"),
+        (RV::Rec(vec![("k".to_string(), nul())]), "{k: sh0}"),
+        (RV::Rec(vec![("k".to_string(), l(vec![n(1.0)]))]), "{k: sh3}"),
+    ]
+}
+
 fn pool(thorough: bool) -> Vec<RV> {
     let n = RV::Num;
     let s = RV::s;
@@ -125,6 +150,8 @@ fn pool(thorough: bool) -> Vec<RV> {
         nest(s("a"), 70),
         nest(s("b"), 70),
     ]);
+    // (kept last: run() spells these with the shared variables of SHARED_PRELUDE)
+    p.extend(shared_entries().into_iter().map(|(v, _)| v));
     p
 }
 
@@ -154,7 +181,10 @@ pub fn run(ctx: &Ctx, replay: Option<&J>) -> i32 {
     let n = p.len();
     ctx.set("pool_size", json!(n));
     // bind the pool once per worker session: `p0 = ...; p1 = ...`
-    let prelude: String = p.iter().enumerate().map(|(i, v)| format!("p{} = {}\n", i, v.src())).collect();
+    let shared = shared_entries();
+    let first_shared = n - shared.len();
+    let prelude: String = SHARED_PRELUDE.to_string()
+        + &p.iter().enumerate().map(|(i, v)| format!("p{} = {}\n", i, if i >= first_shared { shared[i - first_shared].1.to_string() } else { v.src() })).collect::<String>();
 
     // row i: all results against every j
     struct Row {
@@ -220,6 +250,7 @@ pub fn run(ctx: &Ctx, replay: Option<&J>) -> i32 {
         return finish(ctx, "exploration", "", false, None);
     }
 
+    let spell = |i: usize| -> String { if i >= first_shared { shared[i - first_shared].1.to_string() } else { p[i].src() } };
     let v = |kind: &str, i: usize, j: usize, k: Option<usize>, exp: String, obs: String| {
         let names = match k {
             Some(k) => format!("{} ; {} ; {}", p[i].src(), p[j].src(), p[k].src()),
@@ -231,7 +262,7 @@ pub fn run(ctx: &Ctx, replay: Option<&J>) -> i32 {
             input: names,
             expected: exp,
             observed: obs,
-            case: json!({"src": format!("[{a} .== {b}, {a} .< {b}, {a} .> {b}]", a = p[i].src(), b = p[j].src())}),
+            case: json!({"src": format!("{pre}pa = {a}\npb = {b}\n[pa .== pb, pa .< pb, pa .> pb, ugte(pa, pb)]", pre = SHARED_PRELUDE, a = spell(i), b = spell(j))}),
         });
     };
 
